@@ -137,6 +137,9 @@ def main():
         match = None
         for k in open_known:
             if k.get("signature") and k["signature"] == sig:
+                # an entry that names the failing programs covers exactly those: the same symptom on another program is a new violation
+                if k.get("only_names") and f.get("name") not in k["only_names"]:
+                    continue
                 match = k
                 break
         if match is not None:
